@@ -35,7 +35,7 @@ from rsrc import LostAnchor  # noqa: E402
 
 VERIF = os.path.dirname(os.path.dirname(os.path.abspath(__file__)))
 REPO = os.environ.get('VERIF_REPO', '/repo')
-BUILD = os.path.join(VERIF, 'build')
+BUILD = os.environ.get('VERIF_BUILD_DIR', os.path.join(VERIF, 'build'))
 
 
 class ToolLimit(Exception):
@@ -174,6 +174,7 @@ class Fn:
         self.has_requires = False
         self.canary_line = None
         self.clause_labels = {}   # line -> (prop, label)
+        self.ghost_lost = []      # ghost splice anchors that vanished from the real body
 
 
 class Unit:
@@ -236,6 +237,14 @@ def parse_opts(lines):
         if m:
             res.append(('inv', int(m.group(1)), m.group(2)))
             continue
+        m = re.match(r'top\s*<<<(.*)>>>\s*$', s, re.S)
+        if m:
+            res.append(('top', m.group(1)))
+            continue
+        m = re.match(r'loopbody\s+(\d+)\s*<<<(.*)>>>\s*$', s, re.S)
+        if m:
+            res.append(('loopbody', int(m.group(1)), m.group(2)))
+            continue
         m = re.match(r'(before|after)\s+"((?:[^"\\]|\\.)*)"\s*<<<(.*)>>>\s*$', s, re.S)
         if m:
             res.append((m.group(1), m.group(2).replace('\\"', '"'), m.group(3)))
@@ -260,7 +269,7 @@ def source(relpath):
     return _src_cache[p]
 
 
-def transform_body(body, opts, log):
+def transform_body(body, opts, log, lost):
     body = strip_macro_stmts(body, ['tracing::trace', 'tracing::debug', 'tracing::info', 'tracing::warn', 'tracing::error'], log)
     for tag, desc, rx, rep in GLOBAL_REWRITES:
         body, n = rx.subn(rep, body)
@@ -278,22 +287,34 @@ def transform_body(body, opts, log):
             if not n:
                 raise LostAnchor('rewrite regex not found: %r' % o[1][:60])
             log.append(('T6', 'regex rewrite (x%d): %s  =>  %s' % (n, o[1], o[2])))
-    # splices, performed right-to-left so positions stay valid
+    # splices, performed right-to-left so positions stay valid.  A ghost anchor
+    # that no longer exists is NOT fatal: the text is skipped and recorded in
+    # `lost` (the function is then verified without that hint).
     splices = []
     clean = rsrc.blank(body)
     loops = None
     for o in opts:
-        if o[0] == 'inv':
+        if o[0] in ('inv', 'loopbody'):
             if loops is None:
                 loops = loop_headers(clean)
             if o[1] < 1 or o[1] > len(loops):
-                raise LostAnchor('loop #%d not found (body has %d loops)' % (o[1], len(loops)))
-            splices.append((loops[o[1] - 1][1], '\n' + o[2].strip('\n') + '\n'))
-            log.append(('T7', 'loop #%d: invariant/decreases spliced' % o[1]))
+                lost.append('loop #%d not found (body has %d loops)' % (o[1], len(loops)))
+                continue
+            brace = loops[o[1] - 1][1]
+            if o[0] == 'inv':
+                splices.append((brace, '\n' + o[2].strip('\n') + '\n'))
+                log.append(('T7', 'loop #%d: invariant/decreases spliced' % o[1]))
+            else:
+                splices.append((brace + 1, '\n' + o[2].strip('\n') + '\n'))
+                log.append(('T7', 'loop #%d: ghost text spliced at start of loop body' % o[1]))
+        elif o[0] == 'top':
+            splices.append((body.index('{') + 1, '\n' + o[1].strip('\n') + '\n'))
+            log.append(('T7', 'ghost text spliced at start of body'))
         elif o[0] in ('before', 'after'):
             pos = body.find(o[1])
             if pos < 0:
-                raise LostAnchor('splice anchor not found: %r' % o[1][:60])
+                lost.append('splice anchor not found: %r' % o[1][:60])
+                continue
             a, b = find_stmt_bounds(body, clean, pos)
             splices.append((a if o[0] == 'before' else b, '\n' + o[2].strip('\n') + '\n'))
             log.append(('T7', 'ghost text spliced %s statement %r' % (o[0], o[1][:50])))
@@ -429,8 +450,10 @@ def expand(unit):
                     log.append(('T5', 'signature differs by declared rewrite: real `%s` / template `%s`' % (real_sig, tpl_sig)))
                 else:
                     raise LostAnchor('signature changed for %s :: %s\n   real:     %s\n   template: %s' % (file, ' :: '.join(path), real_sig, tpl_sig))
-            body = transform_body(it.body(), opts, log)
+            lost = []
+            body = transform_body(it.body(), opts, log, lost)
             f = Fn()
+            f.ghost_lost = lost
             f.name = fn_name
             f.source = file + ' :: ' + ' :: '.join(path)
             f.sha256 = hashlib.sha256(it.text().encode()).hexdigest()
@@ -523,6 +546,7 @@ def index_generated(unit, text, pasted):
         if f.name != p.name:
             raise ToolLimit('pasted body %s landed in fn %s' % (p.name, f.name))
         f.source, f.sha256, f.rewrites = p.source, p.sha256, p.rewrites
+        f.ghost_lost = p.ghost_lost
         f.canary_line = n
     # clause labels
     for n, ln in enumerate(lines, 1):
